@@ -162,4 +162,7 @@ pub fn run(ctx: &Ctx) {
     // generated cases (larger CX, arbitrary registers)
     let n = ctx.tier.pick(120_000u32, 2_000_000u32);
     run_forms_n(ctx, FormSet::Strings, n, "Strings");
+    if ctx.tier == Tier::Thorough {
+        crate::fuzzrun::exec_campaign(ctx, &["movs", "lods", "stos", "cmps", "scas"], &[]);
+    }
 }
